@@ -497,6 +497,70 @@ func ruleGroupLinkGraph(w *World, r *Report, rule string) {
 		}
 		r.Check(bad == "", rule, link.Name()+"#links-all-members", link.Decl.Pos(), false, "every member of the group becomes an edge of the group's placeholder node", bad)
 	}
+	// a group is identified by element type AND name: the members linked to a
+	// placeholder are selected by both
+	{
+		info := link.Pkg.TypesInfo
+		bad, found := "", false
+		hasTypeAndName := func(t types.Type) bool {
+			st, ok := t.Underlying().(*types.Struct)
+			if !ok {
+				return false
+			}
+			ty, name := false, false
+			for i := 0; i < st.NumFields(); i++ {
+				ft := st.Field(i).Type()
+				if isNamedType(ft, "reflect", "Type") {
+					ty = true
+				}
+				if b, ok := ft.Underlying().(*types.Basic); ok && b.Kind() == types.String {
+					name = true
+				}
+			}
+			return ty && name
+		}
+		ast.Inspect(link.Decl.Body, func(x ast.Node) bool {
+			c, ok := x.(*ast.CallExpr)
+			if !ok || exprStr(c.Fun) != "append" || !c.Ellipsis.IsValid() || len(c.Args) != 2 {
+				return true
+			}
+			found = true
+			if ix, ok := unparen(c.Args[1]).(*ast.IndexExpr); ok {
+				if tv, ok := info.Types[ix.X]; ok {
+					if m, ok := tv.Type.Underlying().(*types.Map); ok {
+						if !hasTypeAndName(m.Key()) {
+							bad = "the members appended to a placeholder are selected from an index keyed by " + types.TypeString(m.Key(), nil) + ", which does not identify a group by element type and name: members of another group that shares one component are linked as well (spurious edges, false cycles)"
+						}
+						return true
+					}
+				}
+			}
+			// selected some other way: both components must be compared
+			cmpType, cmpGroup := false, false
+			ast.Inspect(link.Decl.Body, func(y ast.Node) bool {
+				if be, ok := y.(*ast.BinaryExpr); ok && be.Op == token.EQL {
+					for _, e := range []ast.Expr{be.X, be.Y} {
+						if sel, ok := unparen(e).(*ast.SelectorExpr); ok {
+							switch sel.Sel.Name {
+							case "Type":
+								cmpType = true
+							case "Group":
+								cmpGroup = true
+							}
+						}
+					}
+				}
+				return true
+			})
+			if !cmpType || !cmpGroup {
+				bad = "the members appended to a placeholder are not selected by both element type and group name"
+			}
+			return true
+		})
+		if found {
+			r.Check(bad == "", rule, link.Name()+"#group-identity", link.Decl.Pos(), false, "members are selected by element type and group name", bad)
+		}
+	}
 	for _, use := range []struct{ fn, before string }{
 		{"(*DependencyGraph).DetectCycles", "search"}, {"(*DependencyGraph).AddProvider", "search"}} {
 		fi := w.MustFn(w.Graph, use.fn)
